@@ -572,6 +572,9 @@ def judge(ctx, cases, metas, prej, irej, shapes):
 def model_check(ctx):
     """Design step: the machine over ALL images of the bounded domain (BFS over image prefixes)."""
     mod = os.path.join(SPEC, 'MC_RockRebuild.tla')
+    if os.environ.get('VERIF_C57_SKIP_MC'):        # mutant runs: the design step does not depend on the tree
+        ctx.notes.append('model checking of the specification skipped (VERIF_C57_SKIP_MC)')
+        return
     runs = [('MC_RockRebuild_q.cfg', 900), ('MC_RockRebuild_q_fixed.cfg', 900)]
     if ctx.thorough:
         runs += [('MC_RockRebuild_t.cfg', 3000), ('MC_RockRebuild_t_fixed.cfg', 3000),
